@@ -2,7 +2,7 @@ CHECK = {
     "pkg": ".", "tags": "e2e_testing", "hide": ["interface_emit_test.go"],
     "files": ["netsim/ns_core_test.go", "netsim/ns_world_test.go", "netsim/ns_history_test.go", "netsim/c32_test.go"],
     "run": "^TestC32", "env": {"GOMAXPROCS": "1", "GODEBUG": "asyncpreemptoff=1"},
-    "quick": {"scale": 1, "shards": 1, "timeout": 900},
+    "quick": {"scale": 1, "shards": 4, "timeout": 900},
     "thorough": {"scale": 5, "shards": 12, "timeout": 2400},
     "engine": "E-netsim",
     "technique": "rapid-generated retry/queue scenarios on real nodes under virtual time (synctest); wire-timing and queue-content oracle with an independent rule evaluation",
